@@ -67,6 +67,8 @@ func unignoreRules(ignoredRules *ignoredRules, rules []Rule) {
 
 func parseIgnoreComment(comment string) (string, []Rule) {
 	body := strings.TrimLeft(comment, "#@*/ ")
+	// a block comment ends with its closing marker, which is not a rule name
+	body = strings.TrimSpace(strings.TrimSuffix(strings.TrimSpace(body), "*/"))
 	ignoreType, body, _ := strings.Cut(body, " ")
 
 	if supported, ok := supportedIgnoreTypes[ignoreType]; !ok || !supported {
